@@ -572,6 +572,11 @@ def overused_constant(source: str, *, root_is_static: bool) -> str:
         for node in core.walk(fstring, ast.AST):
             candidates.discard(node)
 
+    # A name in a case pattern is a capture, not a lookup of its value
+    for case in core.walk(root, ast.match_case):
+        for node in core.walk(case.pattern, ast.AST):
+            candidates.discard(node)
+
     # For every node, all scopes it can be found in
     scope_node_definitions = collections.defaultdict(set)
     for scope in itertools.chain([root], core.walk(root, (ast.FunctionDef, ast.AsyncFunctionDef))):
